@@ -235,11 +235,17 @@ func (w *Flushable) flush() error {
 
 // Stat returns a particular internal stat of the database.
 func (w *Flushable) Stat(property string) (string, error) {
+	w.lock.RLock()
+	defer w.lock.RUnlock()
+
 	return w.underlying.Stat(property)
 }
 
 // Compact flattens the underlying data store for the given key range.
 func (w *Flushable) Compact(start []byte, limit []byte) error {
+	w.lock.RLock()
+	defer w.lock.RUnlock()
+
 	return w.underlying.Compact(start, limit)
 }
 
